@@ -70,10 +70,10 @@ pub fn check_inv(ctx: &Ctx, st: &mut Stats, inv: &Inv, tag: &str) -> Option<Stri
         }
     }
     if let (Some(table), Some(o)) = (&parsed.table, &inv.ordering) {
-        // under an ordering file the variables it lists come in the file's order (first appearance)
-        if let Some(listed) = super::clitab::ordering_names(o) {
+        // under an ordering file the variables it lists come in the file's order (a name listed twice may count at either place)
+        if let Some(listed) = super::clitab::ordering_tokens(o) {
             st.bump("headers_compared_with_an_ordering_file");
-            if !super::clitab::respects_order(&table.header, &listed) {
+            if !super::clitab::respects_some_reading(&table.header, &listed) {
                 st.violate("c10.table", "C10:table:header-order".into(), format!("{}: header {:?} does not follow the order of the ordering file, which lists {:?}", inv.describe(), table.header, listed), case());
                 return None;
             }
@@ -199,7 +199,7 @@ fn gen_inv(rng: &mut Rng) -> Inv {
     let mode = rng.below(10);
     Inv {
         text,
-        channel: rng.below(8) as u8,
+        channel: rng.below(9) as u8,
         ordering,
         filter,
         t: mode != 1,
@@ -219,7 +219,7 @@ fn job(ctx: &Ctx, job: usize, iters: u64) -> Stats {
         let Some(base) = check_inv(ctx, &mut st, &inv, &tag) else { continue };
         // the same formula through the other channels and with -b N: identical stdout
         if i % 3 == 0 {
-            for ch in 0..8u8 {
+            for ch in 0..9u8 {
                 if ch == inv.channel {
                     continue;
                 }
@@ -497,7 +497,7 @@ pub fn run(ctx: &Ctx) -> (Stats, Spec) {
     }
     // texts that begin AND end with a prime (part of a name, not a quotation mark)
     for text in ["'a & a'", "'x'", "'p | -q'", "'q", "b'", "'a' & 'b'", "''"] {
-        for ch in 0..8u8 {
+        for ch in 0..9u8 {
             k += 1;
             let inv = Inv { text: text.into(), t: true, v: true, channel: ch, ..Default::default() };
             check_inv(ctx, &mut st, &inv, &format!("primes-{}", k));
@@ -526,7 +526,7 @@ pub fn run(ctx: &Ctx) -> (Stats, Spec) {
         }
     }
     let spec = Spec {
-        rule: "random formulas (<= 6 names, plain and non-ASCII / primed / long names, 0..6 free variables) x filter in every accepted spelling or absent x channel (eight: --evaluate, regular file, a regular file named `-`, a regular file on stdin of which an earlier reader consumed the first line, stdin at once / in small pieces, a named pipe or /dev/stdin as the file; the ordering file through a named pipe too; long outputs of 8-11-variable parity / threshold functions with -t and -v in one run; --evaluate, file, stdin) x ordering file (absent, permutation, subset, superset with unused names, repeats, separators incl. keywords / comments / numbers) x {-t, -v, -t -v, -m, -b N, -r}; tables of 16-18-variable parities with 65 536 - 262 144 rows (each row a total assignment: value, uniqueness, count, -v lines); tables with 31..130 columns (or / and / implication chains; rows judged by three-valued evaluation, pairwise disjointness and an exact 128-bit count of covered assignments); every third case is re-run through the other two channels and every fourth with -b 1 and -b 2 (stdout must be identical). distinct = (formula, option set); non-trivial = >= 2 free variables and >= 3 printed rows.".into(),
+        rule: "random formulas (<= 6 names, plain and non-ASCII / primed / long names, 0..6 free variables) x filter in every accepted spelling or absent x channel (nine: stdin as a terminal on which the text is typed, --evaluate, regular file, a regular file named `-`, a regular file on stdin of which an earlier reader consumed the first line, stdin at once / in small pieces, a named pipe or /dev/stdin as the file; the ordering file through a named pipe too; long outputs of 8-11-variable parity / threshold functions with -t and -v in one run; --evaluate, file, stdin) x ordering file (absent, permutation, subset, superset with unused names, repeats, separators incl. keywords / comments / numbers) x {-t, -v, -t -v, -m, -b N, -r}; tables of 16-18-variable parities with 65 536 - 262 144 rows (each row a total assignment: value, uniqueness, count, -v lines); tables with 31..130 columns (or / and / implication chains; rows judged by three-valued evaluation, pairwise disjointness and an exact 128-bit count of covered assignments); every third case is re-run through the other two channels and every fourth with -b 1 and -b 2 (stdout must be identical). distinct = (formula, option set); non-trivial = >= 2 free variables and >= 3 printed rows.".into(),
         assumptions: vec![
             "with -m the printed diagram is a model: rows must partition and true rows must satisfy the formula (their number is C07's subject)".into(),
             "rejected filter spellings and inputs outside the reference's evaluable range are not judged here (C12)".into(),
